@@ -59,6 +59,42 @@ CLAIMED = {
              'accepted (reported as a note).',
         technique='TLA+ state machine (HSpace.tla) + TLC exhaustive exploration + replay of one history per reachable state + TLC trace validation (HSpaceTrace.tla) of recorded refine events',
         design_ref='3 C04'),
+    'C05': dict(
+        text='spec/HRepr.tla gives, for every reachable HSpace state (TLC-enumerated histories, 1-D and 2-D, disparity 1/2/inf), '
+             'the exact HB and THB representation matrices and two-scale matrices (Boehm insertion in rationals; THB partition of '
+             'unity, non-negativity, rank checked by TLC); spec/KnotInsertCases.tla enumerates nested knot-vector pairs (repeated '
+             'knots, coinciding insertions) and TLC checks that the exact matrix preserves every basis function. The code is bound '
+             'by property-level identities with its own matrix in the middle: knot_insertion/prolongation == exact; '
+             'Repr(fine)*prolongate_to == TPProlong*Repr(coarse); Repr*composed virtual prolongators == TPProlong and spans of '
+             'intermediate levels; HSplineFunc values/Jacobians/Hessians == TP spline of Repr*u; boundary() traces.',
+        note='Uniform dyadic hierarchies, degrees <= 3 (4 thorough), <= 4 levels, 1-D/2-D; knot vectors with integer breakpoints '
+             '<= 6, degree <= 4; tensor-product evaluation on the finest level is trusted here (decided by C02); column-space '
+             'equality by floating-point rank (tol 1e-9) on exact-rational references.',
+        technique='TLA+ exact rational reference (HRepr.tla, KnotInsertCases.tla over Rat/BSplineRef) enumerated by TLC + function-preservation identities checked on the real matrices for every TLC-generated state',
+        design_ref='3 C05'),
+    'C02': dict(
+        text='spec/BSplineRef.tla is an exact (rational) Cox-de Boor reference; spec/BSplineEval.tla enumerates open knot vectors '
+             '(integer breakpoints, all interior multiplicities) x points (breakpoints, ends, mid/quarter points) x derivative '
+             'orders 0..p+2 and TLC checks non-negativity, partition of unity, derivative sums, locality, left limits and a '
+             'code-shaped exact model of the active_deriv kernel (mutant as negative control); FindSpanPC.tla is a PlusCal '
+             'transcription of pyx_findspan checked against the declarative span; BSplineTP.tla covers tensor products. Every '
+             'emitted case is replayed through every evaluation route of the real code.',
+        note='Exact reference for p <= 3 (thorough 5), integer breakpoints 0..4 (0..6); comparison |x-q| <= 1e-11*max(1,|q|,row scale); '
+             'p = 6..12 and span ratios up to 2^40 only by invariants (sum to one, derivative sums, sign, route agreement). '
+             'Trusted base: TLC, Rat.tla, float(Fraction).',
+        technique='TLA+ exact rational reference + PlusCal transcription of the span search, enumerated by TLC; every case replayed through all evaluation routes of the real code',
+        design_ref='3 C02'),
+    'C09': dict(
+        text='spec/Galerkin1D.tla computes the exact integrals of products of B-spline derivatives (Taylor pieces integrated '
+             'monomial by monomial, two spaces, weights, custom grids), Kronecker mass/stiffness/div-div and load vectors; '
+             'spec/GalerkinEval.tla lets TLC check symmetry, sum M = |Omega|, K 1 = 0, rank K = n-1, integration by parts, grid '
+             'independence and A(kv1,kv2) = A(kv2,kv2) Prolong on every enumerated case; every case is replayed through all '
+             'assembling routes (1-D routines, mass/stiffness/divdiv with geo=None/identity/affine, assemble/Assembler with the '
+             'shipped classes, inner_products, integrate, load_vector, fast assemblers).',
+        note='Degrees <= 3 (4 thorough), integer breakpoints; affine geometries only (exactness of the quadrature rule each routine '
+             'selects); tolerance 1e-10*max|entry| (fast assemblers 3e-10); positive definiteness numerically; nothing is compiled.',
+        technique='TLA+ exact rational reference of the Galerkin integrals enumerated and cross-checked by TLC + replay of every case through all assembling routes',
+        design_ref='3 C09'),
 }
 
 NOT_BUILT = 'specification module not built yet (see DESIGN.md section 6); not claimed with a weaker technique'
